@@ -32,7 +32,20 @@ func rwExprStr(e ast.Expr) string {
 	if e == nil {
 		return ""
 	}
-	return types.ExprString(e)
+	// types.ExprString abbreviates composite literals with a non-ASCII ellipsis; the labels go into
+	// Coq string literals, so everything outside printable ASCII is transcribed as "..."
+	var b strings.Builder
+	for _, r := range types.ExprString(e) {
+		switch {
+		case r == '\u2026':
+			b.WriteString("...")
+		case r < 32 || r > 126:
+			b.WriteByte('?')
+		default:
+			b.WriteRune(r)
+		}
+	}
+	return b.String()
 }
 
 // rwCallee renders the function of a call: "pkg.Func", "Func", "recv.method" (method calls keep
